@@ -13,8 +13,8 @@ import ast
 from .. import phys
 from ..algebra import BExpr, GExpr, Poly, apply_fn, b_le0, b_nan, b_ne0, diff, frac, poly_from_key, select
 from ..astutil import U, calls, callee_name, const_str, own_walk
-from ..kernelir import KInterp, PyVal
-from ..phys import DC, DT, PT, bcol, check_equal, g, ncol, run_kernel, run_spec
+from ..kernelir import KInterp, PyVal, Unsupported
+from ..phys import DC, DT, PT, bcol, check_equal, g, hook_summary, ncol, run_kernel, run_spec, tonum
 from ..source import AnalysisError
 
 P = "pandapipes.pipeflow"
@@ -480,4 +480,35 @@ def r10_7(run):
     run.floor(5)
 
 
-RULES = [("R10.1", r10_1), ("R10.2", r10_2), ("R10.4", r10_4), ("R10.5", r10_5), ("R10.6", r10_6), ("R10.7", r10_7)]
+def r10_8(run):
+    """the parameters of the cooling law are taken element by element: what a component writes into a pit column for one
+    element (ambient temperature TEXT, heat transfer coefficient, diameters, length ...) depends on that element's own inputs
+    and on net-wide options, never on whether *other* elements of the table have a value (`if not np.any(np.isnan(col)): ...`
+    adopts or drops everybody's values together).  Decided on the forward substitution of the pit-filling hooks of every
+    component: no written pit value is guarded by a whole-array condition."""
+    ix = run.index
+    n = 0
+    for c in ix.components():
+        for h in ("create_pit_branch_entries", "create_pit_node_entries"):
+            f = ix.lookup_method(c, h)
+            if f is None or f.cls.name == "Component":
+                continue
+            for anyv in (True, False):
+                try:
+                    ki, k = hook_summary(ix, c, h, {"option:transient": False, "any:*": anyv}, partial=True)
+                except (Unsupported, AnalysisError):
+                    continue
+                for key, v in ki.pit.items():
+                    if key[1] != "i" and not isinstance(key[1], str):
+                        pass
+                    bad = sorted({a[1][:60] for gd, p in tonum(v).cases for a, pol in gd if a[0] == "flag" and str(a[1]).startswith("whole-array:")})
+                    n += 1
+                    if bad or anyv:
+                        run.ob("%s.%s|%s|element-wise" % (c.name, h, key[3]), not bad,
+                               "column %s of the %s rows is filled element by element (no value is adopted or dropped depending on "
+                               "other rows of the table)" % (key[3], c.name), run.where(f, f.node), detail="; ".join(bad) if bad else None)
+    run.stat("pit_values_checked_for_whole_array_conditions", n)
+    run.floor(40)
+
+
+RULES = [("R10.1", r10_1), ("R10.2", r10_2), ("R10.4", r10_4), ("R10.5", r10_5), ("R10.6", r10_6), ("R10.7", r10_7), ("R10.8", r10_8)]
